@@ -305,6 +305,56 @@ def run(ctx):
         finally:
             os.chdir(here)
         shutil.rmtree(os.path.join(repo.path, "pkg"), ignore_errors=True)
+        # repo_path through a symbolic link: `-C cur/../repo` is resolved by the operating system (the link's target's parent), not by deleting `cur/..` as text
+        try:
+            os.makedirs(os.path.join(top, "rel", "r2"), exist_ok=True)
+            if not os.path.exists(os.path.join(top, "cur")):
+                os.symlink(os.path.join("rel", "r2"), os.path.join(top, "cur"))
+            other = os.path.join(top, "rel", "repo")
+            if not os.path.exists(other):
+                shutil.copytree(repo.path, other, symlinks=True)
+                import subprocess as _sp
+                _sp.run([core.REAL_GIT, "-C", other, "tag", "v77.0.0"], env=repo.env, capture_output=True)
+            for cwd, rel in ((top, "cur/../repo"), (top, "./cur/../repo/."), (os.path.join(top, "cur"), "../repo"), (top, "rel/../repo")):
+                for fn in ("version", "flow"):
+                    os.chdir(cwd)
+                    kwargs = {"repo_path": rel}
+                    res = call(z, fn, None, kwargs)
+                    iargv, istdin = assemble(fn, None, kwargs, {})
+                    r = core.run_zerv(ctx.bins, iargv, stdin=istdin, env=env, cwd=cwd)
+                    ctx.evaluations += 2
+                    ctx.count("symlinked_repo_path_calls")
+                    _compare(ctx, res, r, dict(kind="symlinked-repo-path", func=fn, cwd=cwd, repo_path=rel), iargv)
+        finally:
+            os.chdir(here)
+        # positional versions are passed as they are: surrounding white space is part of the string the CLI judges
+        for pos in ("1.2.3\n", " 1.2.3", "1.2.3 ", "\t1.0.0-rc.1", "v1.2.3\r\n"):
+            for fn, kwargs in (("check", {}), ("check", {"format": "semver"}), ("render", {"output_format": "semver"})):
+                res = call(z, fn, pos, kwargs)
+                iargv, istdin = assemble(fn, pos, kwargs, {})
+                r = core.run_zerv(ctx.bins, iargv, stdin=istdin, env=env)
+                ctx.evaluations += 2
+                ctx.count("positional_whitespace_calls")
+                _compare(ctx, res, r, dict(kind="positional", func=fn, pos=pos, kwargs=kwargs), iargv)
+        # a git that answers correctly but late: the wrapper has no business giving up on a command that the command line completes
+        import threading
+        slow_env = core.base_env(ctx.bins, home=top, use_gitshim=True, extra={"ZERV_VERIF_GIT_DELAY_MS": "1300"})
+        ref = {}
+        th = threading.Thread(target=lambda: ref.update(r=core.run_zerv(ctx.bins, ["version", "-C", repo.path], env=slow_env, timeout=240)))
+        th.start()
+        saved_env = dict(os.environ)
+        os.environ.clear()
+        os.environ.update(slow_env)
+        try:
+            res = call(z, "version", None, {"repo_path": repo.path})
+        finally:
+            os.environ.clear()
+            os.environ.update(saved_env)
+        th.join()
+        ctx.evaluations += 2
+        ctx.count("slow_git_calls")
+        if ref.get("r") and not ref["r"]["timeout"]:
+            _compare(ctx, res, ref["r"], dict(kind="slow-git", func="version", delay_ms_per_git_call=1300), ["version", "-C", repo.path])
         # the stdin keyword: empty and blank texts are values too (not "no stdin"), and the child must never fall back to the caller's own stdin -
         # during these calls the process's fd 0 is a file holding a valid object of another version, so an inherited stdin shows up as 9.9.9
         sentinel = os.path.join(top, "sentinel.ron")
